@@ -293,6 +293,7 @@ def run(rep):
     rep.floor('R04.d', 7)
 
     # ---- R04.e -----------------------------------------------------------
-    chain.check_unresolved_raises(rep, 'R04.e')
-    chain.check_phase_sets(rep, 'R04.e', rule_pair='R04.e', rule_core_env='R04.e')
-    rep.floor('R04.e', 10)
+    rep.guard(chain.check_unresolved_raises, rep, 'R04.e')
+    rep.guard(chain.check_phase_sets, rep, 'R04.e', rule_pair='R04.e', rule_core_env='R04.e')
+    if not rep.gaps:
+        rep.floor('R04.e', 10)
